@@ -2711,6 +2711,17 @@ pub(crate) fn constrain_type(expr: &mut TypedExpr, expected: &Type) -> Result<()
                 }
             }
         }
+        (
+            ExprEnum::Range(_, to, num_ty @ UnsignedNumType::Unspecified),
+            Type::Array(elem_ty, _) | Type::ArrayConst(elem_ty, _),
+        ) => {
+            // a range without suffix takes the expected unsigned element type (the elements
+            // themselves, not just the type of the expression, have to change their width)
+            match elem_ty.as_ref() {
+                Type::Unsigned(ty) if !ty.max().is_some_and(|max| *to - 1 > max) => *num_ty = *ty,
+                _ => return Ok(()),
+            }
+        }
         (ExprEnum::Identifier(_), Type::Array(elem_ty, _) | Type::ArrayConst(elem_ty, _)) => {
             if let Type::Array(actual, _) | Type::ArrayConst(actual, _) = &mut expr.ty {
                 overwrite_ty_if_necessary(actual, elem_ty);
